@@ -89,6 +89,27 @@ def bounded_bodies(ctx):
             b = skel.body(None, inner, ex)
             out.append({"id": h(["inline", inner, ex]), "ident": ["inline", inner, ex], "pre": skel.PRELUDE + skel.CTX_PRELUDE,
                         "iter": "try { " + b + " } catch (E) { }"})
+    # an abrupt completion pending in try/catch (return value, exception, break, continue) overridden by a jump out of the finally
+    # block - the construct must give up whatever the pending completion kept on the operand stack.  (The bodies sit directly in
+    # the monitored loop: 'continue' targets it; 'return' needs the in-function variant and is overridden, so the loop goes on.)
+    pendings = {"return-value": "return [I, I];", "return-call": "return keep(I) + keep(1);", "throw": "throw I;", "throw-expr": "keep(1) + nope.x;", "normal": "keep(I);",
+                "catch-rethrows": None, "catch-returns": None, "break-inner": None, "nested-finally": None}
+    exits = {"continue": "continue;", "labelled-continue": "continue;", "cond-continue": "if (I >= 0) continue;"}
+    for pn, psrc in pendings.items():
+        for en, esrc in exits.items():
+            if pn == "catch-rethrows":
+                body = "try { throw I; } catch (e) { throw [e, e]; } finally { %s }" % esrc
+            elif pn == "catch-returns":
+                body = "try { throw I; } catch (e) { return [e, e]; } finally { %s }" % esrc
+            elif pn == "break-inner":
+                body = "do { try { break; } finally { %s } } while (0);" % ("continue;" if en != "cond-continue" else "if (I < 0) continue;")
+            elif pn == "nested-finally":
+                body = "try { try { return [I]; } finally { keep(2); } } finally { %s }" % esrc
+            else:
+                body = "try { %s } finally { %s }" % (psrc, esrc)
+            needs_fn = "return" in body
+            out.append({"id": h(["finally-override", pn, en]), "ident": ["finally-override", pn, en], "pre": skel.PRELUDE + skel.CTX_PRELUDE,
+                        "iter": body, "needs_function": needs_fn})
     return out
 
 
@@ -200,10 +221,12 @@ def main(ctx):
             for inf in (False, True):
                 if ctx.quick and inf and n == 1:
                     continue
+                if b.get("needs_function") and not inf:
+                    continue
                 bcases.append({"id": h([b["id"], n, inf]), "body": b["ident"], "N": n, "M": 20000, "in_function": inf,
                                "src": loop_program(b, n, inf)})
     # scaling tier: large N on a seed-chosen sample
-    sample = rng.sample(bodies, 40 if ctx.quick else 300)
+    sample = rng.sample(bodies, 40 if ctx.quick else 300) + [b for b in bodies if b["ident"][0] == "finally-override"]
     bigN = 1000 if ctx.quick else 30000
     for b in sample:
         bcases.append({"id": h([b["id"], bigN, True]), "body": b["ident"], "N": bigN, "M": 20000, "in_function": True,
